@@ -342,6 +342,9 @@ func genWorkload(t *rapid.T, l string, ns string, cfg *GenCfg) Workload {
 	if np >= 1 && rapid.IntRange(0, 3).Draw(t, l+"helper") == 0 {
 		wl.Helper = rapid.IntRange(1, 3).Draw(t, l+"helperpos")
 	}
+	if wl.Kind != "Pod" && !isOwned(wl.Kind) && rapid.IntRange(0, 5).Draw(t, l+"exported") == 0 {
+		wl.ExportedOwner = true
+	}
 	if rapid.IntRange(0, 3).Draw(t, l+"objlab") == 0 {
 		// decoy labels on the controller object itself (only the pod template's labels count)
 		wl.ObjLabels = genLabels(t, l+"objl", 2)
